@@ -1,6 +1,6 @@
 (* C11 — empirical error estimates are the segment scatter in spectral units (statements only) *)
 From Coq Require Import ZArith List Bool Reals.
-From SK Require Import Arith Cpx KernelPrims Kernels AttrThms.
+From SK Require Import Arith Cpx KernelPrims Kernels AttrThms GenRef CauchySchwarz KernelCS.
 From SK.gen Require Import AttrsGen KernelsGen.
 Import ListNotations.
 Section C11.
@@ -20,6 +20,14 @@ Theorem C11_M2_single_segment : forall (A : Arith) c s (a b cc d : T A),
 Proof. intros. reflexivity. Qed.
 Theorem C11_M2_no_segment : forall (A : Arith) c s, gen_reduce_stats_nb A c s [] [] [] [] = (ofZ A 0, ofZ A 0, ofZ A 0, ofZ A 0, ofZ A 0).
 Proof. intros. reflexivity. Qed.
+(* the scatter statistic returned by the regenerated cross kernels is never negative (any records, any non-empty starts) *)
+Theorem C11_M2_nonneg : forall (x1 x2 w : list R) (starts : list Z) L omega, starts <> [] ->
+  let '(MXX, MYY, mur, mui, M2) := gen_stats_win_only_csd RA cos sin x1 x2 starts L w omega in (0 <= M2)%R.
+Proof.
+  intros. rewrite Gen_win_only_csd_ref. pose proof (ref_csd_cauchy_schwarz (cos omega) (sin omega) (samp_win RA x1 w) (samp_win RA x2 w) starts L H) as C.
+  destruct (ref_csd RA _ _ _ _ starts L) as [[[[a b] c] d] e]. tauto.
+Qed.
 End C11.
 Print Assumptions C11_spectral_units.
 Print Assumptions C11_M2_single_segment.
+Print Assumptions C11_M2_nonneg.
